@@ -317,3 +317,53 @@ Definition client_endpoint (rt : router) (prior : list string) (epx : obj)
 
 Definition backend_of_raw (x : obj * reply * option obj) : backend :=
   let '(extra, r, d) := x in (status_mode_raw extra, r, d).
+
+(* ======================================================================================
+   Decoder interplay: which bodies count as decoded under each backend encoding.  JSON
+   parsing itself stays outside (the harness supplies an independent parse of the body as
+   a JSON VALUE, None when it is not JSON); what each encoding makes of that value, and
+   the no-op encoding that bypasses the status handlers altogether, is modelled here.
+   ====================================================================================== *)
+Inductive encoding :=
+| EncJson (is_collection : bool)   (* also every unregistered encoding name *)
+| EncSafeJson | EncString | EncNoop.
+
+(* config: encoding.GetRegister().Get(name)(is_collection); proxy: Encoding == "no-op" *)
+Definition enc_of (name : string) (is_collection : bool) : encoding :=
+  if str_eqb name "no-op" then EncNoop
+  else if str_eqb name "safejson" then EncSafeJson
+  else if str_eqb name "string" then EncString
+  else EncJson is_collection.
+
+Definition decode_as (e : encoding) (body : string) (parsed : option json) : option obj :=
+  match e with
+  | EncString => Some [("content", JStr body)]          (* every body decodes *)
+  | EncNoop => Some []
+  | EncSafeJson =>
+      match parsed with
+      | Some (JObj m) => Some m
+      | Some (JArr l) => Some [("collection", JArr l)]
+      | Some v => Some [("content", v)]
+      | None => None
+      end
+  | EncJson false =>
+      match parsed with
+      | Some (JObj m) => Some m
+      | Some JNull => Some []                            (* null leaves the map nil *)
+      | _ => None
+      end
+  | EncJson true =>
+      match parsed with
+      | Some (JArr l) => Some [("collection", JArr l)]
+      | Some JNull => Some [("collection", JNull)]
+      | _ => None
+      end
+  end.
+
+(* NewHTTPProxyWithHTTPExecutor: with the no-op encoding the status handler is the no-op one
+   and the parser hands the reply through - status classification does not apply *)
+Definition http_proxy_outcome_enc (e : encoding) (m : mode) (r : reply) (parsed : option json) : pout :=
+  match e with
+  | EncNoop => (Some {| p_data := []; p_complete := true; p_status := r_code r |}, ENone)
+  | _ => http_proxy_outcome m r (decode_as e (r_body r) parsed)
+  end.
